@@ -30,15 +30,17 @@ type ValOpts struct {
 //	sig                  read the whole body; accept iff it is the body the client sent
 //	close_ok             read everything, close the body, accept
 type Spec struct {
-	Leg     string            `json:"leg"` // request | response
-	Doc     SDoc              `json:"doc"`
-	Marker  string            `json:"marker"`
-	Vals    []ValOpts         `json:"vals"`
-	Auth    map[string]string `json:"auth,omitempty"`
-	Req     ReqSpec           `json:"req"`
-	Resp    RespSpec          `json:"resp,omitempty"`
-	ReadBuf int               `json:"read_buf,omitempty"` // buffer size of the next handler
-	Again   bool              `json:"again,omitempty"`    // a fault-free request follows on the same document
+	Leg         string            `json:"leg"` // request | response
+	Doc         SDoc              `json:"doc"`
+	Marker      string            `json:"marker"`
+	Vals        []ValOpts         `json:"vals"`
+	Auth        map[string]string `json:"auth,omitempty"`
+	Req         ReqSpec           `json:"req"`
+	Resp        RespSpec          `json:"resp,omitempty"`
+	More        []RespSpec        `json:"more,omitempty"`         // response leg: further responses validated before any body is read back
+	ReadReverse bool              `json:"read_reverse,omitempty"` // read the bodies back in reverse order
+	ReadBuf     int               `json:"read_buf,omitempty"`     // buffer size of the next handler
+	Again       bool              `json:"again,omitempty"`        // a fault-free request follows on the same document
 }
 
 type ReqSpec struct {
@@ -151,22 +153,38 @@ func bodySchema(r *simfw.RNG, rq string, withDefaults bool) (*Node, map[string]a
 		noExtra := r.Chance(1, 4)
 		return []*Node{
 			{Type: "object", Kind: "circle", Required: []string{"kind", "r"}, NoExtra: noExtra, Props: map[string]*Node{
-				"kind": {Type: "string", Enum: []any{"circle"}}, "r": {Type: "number"}, "unit": {Type: "string", Default: "cm"}}},
+				"kind": {Type: "string", Enum: []any{"circle"}}, "r": {Type: "number"}, "unit": {Type: "string", Default: "cm"},
+				"meta": {Type: "object", Props: map[string]*Node{"lives": {Type: "integer", Default: float64(9)}, "note": {Type: "string"}}},
+				"pts":  {Type: "array", Items: &Node{Type: "object", Props: map[string]*Node{"x": {Type: "integer", Default: float64(1)}, "b": {Type: "string"}}}}}},
 			{Type: "object", Kind: "rect", Required: []string{"kind", "w"}, NoExtra: noExtra, Props: map[string]*Node{
-				"kind": {Type: "string", Enum: []any{"rect"}}, "w": {Type: "number"}, "h": {Type: "number", Default: float64(1)}, "fill": {Type: "string", Default: "none"}}},
+				"kind": {Type: "string", Enum: []any{"rect"}}, "w": {Type: "number"}, "h": {Type: "number", Default: float64(1)}, "fill": {Type: "string", Default: "none"},
+				"meta": {Type: "object", Props: map[string]*Node{"sides": {Type: "integer", Default: float64(4)}, "note": {Type: "string"}}},
+				"pts":  {Type: "array", Items: &Node{Type: "object", Props: map[string]*Node{"y": {Type: "integer", Default: float64(2)}, "b": {Type: "string"}}}}}},
 		}
 	}
 	branchValue := func() map[string]any {
+		var m map[string]any
 		if r.Bool() {
-			m := map[string]any{"kind": "circle", "r": float64(r.Range(1, 9))}
+			m = map[string]any{"kind": "circle", "r": float64(r.Range(1, 9))}
 			if r.Chance(1, 3) {
 				m["unit"] = "mm"
 			}
-			return m
+		} else {
+			m = map[string]any{"kind": "rect", "w": float64(r.Range(1, 9))}
+			if r.Chance(1, 3) {
+				m["h"] = float64(2)
+			}
 		}
-		m := map[string]any{"kind": "rect", "w": float64(r.Range(1, 9))}
+		// nested values present without their defaulted properties: a default of the
+		// other branch must not leak into them
+		switch r.Intn(3) {
+		case 0:
+			m["meta"] = map[string]any{}
+		case 1:
+			m["meta"] = map[string]any{"note": "n"}
+		}
 		if r.Chance(1, 3) {
-			m["h"] = float64(2)
+			m["pts"] = []any{map[string]any{"b": "q"}, map[string]any{}}
 		}
 		return m
 	}
@@ -246,9 +264,9 @@ func Gen(seed uint64, prop, tier string) *Spec {
 	rq := "RQ" + s.Marker
 	d := &s.Doc
 	// security
-	shapes := []string{"", "", "single", "or", "and", "or3", "and_or", "empty_req", "or_empty", "empty_list"}
+	shapes := []string{"", "", "single", "or", "and", "or3", "and_or", "empty_req", "or_empty", "empty_list", "undecl_or", "undecl_and", "undecl_only"}
 	d.SecOp = simfw.Pick(r, shapes)
-	d.SecDoc = simfw.Pick(r, []string{"", "", "single", "or", "and", "empty_list"})
+	d.SecDoc = simfw.Pick(r, []string{"", "", "single", "or", "and", "empty_list", "undecl_or"})
 	if prop == "C07" && d.SecOp == "" && d.SecDoc == "" {
 		d.SecOp = simfw.Pick(r, shapes[2:])
 	}
@@ -500,5 +518,19 @@ func genResponse(r *simfw.RNG, s *Spec) {
 	p.Chunk = chunkPlan(r, len(p.Body), fault)
 	if fault {
 		s.Again = true
+	}
+	// sometimes a short history: more responses for the same operation, validated
+	// before the first body is read back
+	if !fault && r.Chance(1, 3) {
+		for i, k := 0, r.Range(1, 2); i < k; i++ {
+			m := *p
+			m.Body = strings.ReplaceAll(p.Body, mk, fmt.Sprintf("%s-n%d", mk, i+2))
+			if r.Bool() && len(m.Body) > 4 {
+				m.Body = m.Body + strings.Repeat(" ", r.Range(1, 40))
+			}
+			m.Chunk = chunkPlan(r, len(m.Body), false)
+			s.More = append(s.More, m)
+		}
+		s.ReadReverse = r.Bool()
 	}
 }
